@@ -706,6 +706,29 @@ func enumScalarContainers(tier string, fam scalarFam, yield func(core.Case) bool
 		if keyable {
 			cs = append(cs, cont{"map-key", tbin.MapS(s, tbin.Sc(tbin.I32)), &tbin.Val{T: tbin.MAP, KT: s.T, ET: tbin.I32, K: []*tbin.Val{v}, L: []*tbin.Val{tbin.I32v(7)}}})
 		}
+		if keyable && s.T != tbin.STRING {
+			// an integer key spelled with JSON escapes: all characters, the last one only, the first digit only
+			dec := strconv.FormatInt(v.I, 10)
+			esc := func(i int) string { return fmt.Sprintf("\\u%04x", dec[i]) }
+			all := ""
+			for i := range dec {
+				all += esc(i)
+			}
+			fd := 0
+			if dec[0] == '-' {
+				fd = 1
+			}
+			kshape := tbin.MapS(s, tbin.Sc(tbin.I32))
+			kval := &tbin.Val{T: tbin.MAP, KT: s.T, ET: tbin.I32, K: []*tbin.Val{v}, L: []*tbin.Val{tbin.I32v(7)}}
+			for _, key := range []string{all, dec[:len(dec)-1] + esc(len(dec)-1), dec[:fd] + esc(fd) + dec[fd+1:]} {
+				doc := `{"f1":{"` + key + `":7}}`
+				d := &j2tDoc{Fam: "scalar-in-map-key:" + fam.name + "/escaped-digits", IDL: rootIDL(kshape), Doc: doc, Oracle: func(int) int { return oDiff }, Ref: refRoot(kval, kshape, Spelling{}),
+					Trig: "scalar:" + fam.name + ",map-key-with-escaped-digits", MM: "json-string->thrift-number@map-key"}
+				if !yield(d.Case()) {
+					return
+				}
+			}
+		}
 		for _, c := range cs {
 			idl := rootIDL(c.shape)
 			for _, sp := range spells {
